@@ -178,6 +178,55 @@ Section Model.
             let cp := context_prob k len words wp (context_index k len words inst i j) in
             if is_zero cp then 0 else vget o wp j / cp).
 
+  (* ------------------------------------------------------------ General / GeneralStationary (ns_substitution_model.py) *)
+  (** numpy.array((0.0,) + params + (1.0,)).take(param_pick): cell (i,j) holds
+      0 (pick 0), the k-th parameter (pick k) or 1 (pick = number of parameters + 1) *)
+  Definition take_pick (n : nat) (params : list R) (pick : list (list nat)) : lmat R :=
+    let vals := 0 :: params ++ [1] in
+    mk n (fun i j => nth (nth j (nth i pick []) 0%nat) vals 0).
+
+  (** R[i, j] = v *)
+  Definition lset (n : nat) (Rl : lmat R) (i j : nat) (v : R) : lmat R :=
+    mk n (fun a b => if Nat.eqb a i && Nat.eqb b j then v else get o Rl a b).
+
+  Variable neg : R -> bool.     (* x < 0.0 *)
+  Variable near0 : R -> bool.   (* numpy.allclose(x, 0.0) *)
+
+  (** row_total - col_total for column j:  mprobs . R[j]  -  mprobs . R[:, j] *)
+  Definition gs_required (n : nat) (mp : nat -> R) (Rm : fmat R) (j : nat) : R :=
+    sumn o n (fun k => mp k * Rm j k) - sumn o n (fun k => mp k * Rm k j).
+
+  (** one turn of the loop over last_in_column of GeneralStationary.calc_exchangeability_matrix;
+      [None] = ParameterOutOfBoundsError *)
+  Definition gs_step (n : nat) (mp : list R) (st : option (lmat R)) (ij : nat * nat) : option (lmat R) :=
+    match st with
+    | None => None
+    | Some Rl =>
+        let required := gs_required n (vget o mp) (get o Rl) (snd ij) in
+        let required := if near0 required then (if neg required then fopp o required else required) else required in
+        if neg required then None
+        else Some (lset n Rl (fst ij) (snd ij) (required / vget o mp (fst ij)))
+    end.
+
+  Definition gs_loop (n : nat) (mp : list R) (lic : list (nat * nat)) (Rl : lmat R) : option (lmat R) :=
+    fold_left (gs_step n mp) lic (Some Rl).
+
+  Definition gs_exchangeability (n : nat) (mp params : list R) (pick : list (list nat)) (lic : list (nat * nat))
+    : option (lmat R) :=
+    gs_loop n mp lic (take_pick n params pick).
+
+  (** the SEEDED variant "feasibility guard dedented out of the loop": every dependent entry is
+      written, only the last requirement is tested (kept to state its refutation) *)
+  Definition gs_step_unguarded (n : nat) (mp : list R) (st : lmat R * R) (ij : nat * nat) : lmat R * R :=
+    let Rl := fst st in
+    let required := gs_required n (vget o mp) (get o Rl) (snd ij) in
+    let required := if near0 required then (if neg required then fopp o required else required) else required in
+    (lset n Rl (fst ij) (snd ij) (required / vget o mp (fst ij)), required).
+  Definition gs_exchangeability_guard_after_loop (n : nat) (mp params : list R) (pick : list (list nat))
+    (lic : list (nat * nat)) : option (lmat R) :=
+    let '(Rl, required) := fold_left (gs_step_unguarded n mp) lic (take_pick n params pick, 0) in
+    if neg required then None else Some Rl.
+
   (* ------------------------------------------------------------ exponentiators *)
   (** natural number as a field element *)
   Definition nat_f (k : nat) : R := f_of_nat o k.
@@ -231,6 +280,26 @@ Section Model.
   (** EigenExponentiator: numpy.inner(evT * exp_roots, evI)[i,j] = Σ_k evT[i,k]·e[k]·evI[j,k] *)
   Definition eigen_P (n : nat) (evT evI : fmat R) (e : nat -> R) : fmat R :=
     fun i j => sumn o n (fun k => evT i k * e k * evI j k).
+
+  (* ------------------------------------------------------------ discrete-time models (BH / DT) *)
+  (** maths/util.py ratios_to_proportions(total, params): N proportions from N-1 ratios by recursive
+      halving; every row of a discrete-time psub matrix (PsubMatrixDefn) is such a partition with total 1.
+      Recursion on list halves: explicit fuel (length params + 1 suffices; out of fuel returns [total]) *)
+  Fixpoint ratios_to_proportions (fuel : nat) (total : R) (params : list R) : list R :=
+    match fuel with
+    | O => [total]
+    | S f =>
+        match params with
+        | [] => [total]
+        | r0 :: rest =>
+            let half := Nat.div (length params + 1) 2 in
+            let part := 1 / (r0 + 1) in
+            ratios_to_proportions f (total * part) (firstn (half - 1) rest)
+            ++ ratios_to_proportions f (total * (1 - part)) (skipn (half - 1) rest)
+        end
+    end.
+
+  Definition psub_row (ratios : list R) : list R := ratios_to_proportions (S (length ratios)) 1 ratios.
 
   (* ------------------------------------------------------------ rate classes *)
   (** WeightedPartitionDefn.calc: values / Σ weights·values *)
